@@ -98,3 +98,26 @@ func craftGroup(base uint64, shared, k int, salt uint64) []string {
 	}
 	return out
 }
+
+// craftGroupFS is craftGroup restricted to names a filesystem can hold (no '/' and no NUL): the free second half of the
+// preimage is varied until the name qualifies.
+func craftGroupFS(base uint64, shared, k int) []string {
+	var out []string
+	for salt := uint64(0); len(out) < k && salt < 4000; salt++ {
+		g := craftGroup(base, shared, k, salt)
+		if len(g) <= len(out) {
+			break
+		}
+		n := g[len(out)]
+		ok := true
+		for i := 0; i < len(n); i++ {
+			if n[i] == '/' || n[i] == 0 {
+				ok = false
+			}
+		}
+		if ok {
+			out = append(out, n)
+		}
+	}
+	return out
+}
